@@ -2,7 +2,6 @@
    Every observation carries values of one global sequence counter (0 = never happened). *)
 From God Require Import Base.Prelude.
 From God Require Export C16.Model.
-From GodGen Require C16_Gen.
 From Coq Require Import FMapPositive.
 Module PM := PositiveMap.
 Local Open Scope Z_scope.
@@ -59,10 +58,12 @@ Record case := mkcase {
   c_ivl_exp : Z                      (* the interval the executor was configured with / the documented default *)
 }.
 
-(* documented defaults (bulkexecutor.go / chunkexecutor.go / vars.go), regenerated from the source *)
-Definition default_bulk_tasks : Z := C16_Gen.defaultBulkTasks.
-Definition default_chunk_size : Z := C16_Gen.defaultChunkSize.
-Definition default_interval : Z := C16_Gen.defaultFlushInterval.
+(* documented defaults: 1000 tasks per bulk batch, 1 MiB per chunk, flush every second.  Written here as the
+   statement's own numbers: this file does not depend on the regenerated module (C16.Link proves the
+   regenerated constants of bulkexecutor.go / chunkexecutor.go / vars.go equal to them) *)
+Definition default_bulk_tasks : Z := 1000.
+Definition default_chunk_size : Z := 1024 * 1024.
+Definition default_interval : Z := 1000000000.
 
 (* the executor runs with its own configuration, whatever executors were created before it *)
 Definition ivl_ok (c : case) : bool := forallb (Z.eqb (c_ivl_exp c)) (c_ivl c).
@@ -298,7 +299,8 @@ Definition small_spec_ok (c : case) : bool :=
   (if c_seq c then flush_ok c && ticks_ok c (c_ticks c) && threshold_ok c else true).
 
 (* ---------- sqlx.BulkInserter ---------- *)
-Definition max_bulk_rows : Z := C16_Gen.maxBulkRows.
+(* sqlx.BulkInserter: at most 1000 rows per statement (C16.Link: = the regenerated maxBulkRows) *)
+Definition max_bulk_rows : Z := 1000.
 
 (* model: the dbInserter container (append; len >= maxBulkRows => cut off) under the sequential
    projection of the flusher (a tick directly after a threshold batch is skipped) *)
@@ -414,5 +416,3 @@ Definition spec_ok (c : case) : bool :=
 (* input validity: unique task ids, a threshold of at least 1 *)
 Definition hyp_ok (c : case) : bool := nodup_nat (all_ids c) && (1 <=? c_max c).
 
-(* the generated constant is the one the model uses *)
-Definition idle_round_gen : Z := C16_Gen.idleRound.
